@@ -385,9 +385,17 @@ def bits_to_target(bits):
     exponent = bits[-1]
     # the first three bytes are the coefficient in little endian
     coefficient = little_endian_to_int(bits[:-1])
+    # the top bit of the coefficient is the sign of the compact format
+    negative = coefficient & 0x800000
+    coefficient &= 0x7FFFFF
     # the formula is:
     # coefficient * 256**(exponent-3)
-    return coefficient * 256 ** (exponent - 3)
+    if exponent <= 3:
+        # small exponents drop low bytes of the coefficient (integer, not float, arithmetic)
+        target = coefficient >> 8 * (3 - exponent)
+    else:
+        target = coefficient * 256 ** (exponent - 3)
+    return -target if negative else target
 
 
 def target_to_bits(target):
